@@ -7,7 +7,7 @@ F == FALSE
 
 \* a program without a reader whose application never pauses inside a message
 NoHold(msgs) == [m \in 1..Len(msgs) |-> [f \in 1..Len(msgs[m]) |-> 0]]
-P(msgs, ctl, closer) == [msgs |-> msgs, hold |-> NoHold(msgs), ctl |-> ctl, rd |-> <<>>, cx |-> <<>>, fault |-> <<>>, closer |-> closer]
+P(msgs, ctl, closer) == [msgs |-> msgs, hold |-> NoHold(msgs), ctl |-> ctl, rd |-> <<>>, dclose |-> <<>>, cx |-> <<>>, fault |-> <<>>, closer |-> closer]
 
 \* 1 writer x 3 frames (one with `extra`) in 2 messages x ping sender x close sender x closer
 McMain == P(<< <<T, F>>, <<F>> >>, << <<"ping">>, <<"close">> >>, TRUE)
@@ -28,31 +28,35 @@ McBig == P(<< <<T, F>>, <<T>>, <<F, F>> >>, << <<"ping">>, <<"close">>, <<"pong"
 \* the reader: the peer's Ping (default handler) and Close (application's handler) arrive at any point, the
 \* application of D pauses before either frame of its first message (bytes buffered / between two frames)
 McReader == [msgs |-> << <<T, F>> >>, hold |-> << <<1, 1>> >>,
-             ctl |-> << <<"ping">> >>, rd |-> <<"pong@", "close">>, cx |-> <<>>, fault |-> <<>>, closer |-> TRUE]
+             ctl |-> << <<"ping">> >>, rd |-> <<"pong@", "close">>, dclose |-> <<>>, cx |-> <<>>, fault |-> <<>>, closer |-> TRUE]
 McReaderBig == [msgs |-> << <<T, F>>, <<F>> >>, hold |-> << <<1, 1>>, <<0>> >>,
-                ctl |-> << <<"ping">> >>, rd |-> <<"pong@", "close">>, cx |-> <<>>, fault |-> <<>>, closer |-> TRUE]
+                ctl |-> << <<"ping">> >>, rd |-> <<"pong@", "close">>, dclose |-> <<>>, cx |-> <<>>, fault |-> <<>>, closer |-> TRUE]
 \* both kinds of handler, the peer's Close echoed by the default close handler, a close sender of the
 \* application, two pauses before the first flush
 McReader2 == [msgs |-> << <<T, F>> >>, hold |-> << <<2, 1>> >>,
-              ctl |-> << <<"close">> >>, rd |-> <<"pong", "pong@", "close@">>, cx |-> <<>>, fault |-> <<>>, closer |-> FALSE]
+              ctl |-> << <<"close">> >>, rd |-> <<"pong", "pong@", "close@">>, dclose |-> <<>>, cx |-> <<>>, fault |-> <<>>, closer |-> FALSE]
 
 \* control frames that reach the transport in two writes (header, payload): the ping, the close and the
 \* answer of the reader's default handler
 McCtl2 == [msgs |-> << <<F, F>> >>, hold |-> << <<0, 1>> >>, ctl |-> << <<"ping">>, <<"close">> >>, rd |-> << >>,
-           cx |-> << [p |-> "K1", c |-> 1, n |-> 2], [p |-> "K2", c |-> 1, n |-> 2] >>, fault |-> <<>>, closer |-> TRUE]
+           dclose |-> <<>>, cx |-> << [p |-> "K1", c |-> 1, n |-> 2], [p |-> "K2", c |-> 1, n |-> 2] >>, fault |-> <<>>, closer |-> TRUE]
 McCtl2Big == [msgs |-> << <<T, F>> >>, hold |-> << <<0, 1>> >>, ctl |-> << <<"ping">>, <<"close">> >>, rd |-> <<"pong@">>,
-              cx |-> << [p |-> "K1", c |-> 1, n |-> 2], [p |-> "K2", c |-> 1, n |-> 3], [p |-> "R", c |-> 1, n |-> 2] >>,
+              dclose |-> <<>>, cx |-> << [p |-> "K1", c |-> 1, n |-> 2], [p |-> "K2", c |-> 1, n |-> 3], [p |-> "R", c |-> 1, n |-> 2] >>,
               fault |-> <<>>, closer |-> TRUE]
 
 \* transport writes that fail with the transport open: the ping is cut off inside its only write by its
 \* deadline, D's second message loses the `extra` write (nothing of it accepted) to a plain error
 McFault == [msgs |-> << <<F, F>>, <<T>> >>, hold |-> << <<0, 1>>, <<0>> >>, ctl |-> << <<"ping">>, <<"pong", "close">> >>, rd |-> << >>,
-            cx |-> <<>>, fault |-> << [p |-> "K1", c |-> 1, k |-> 1, some |-> TRUE, kind |-> "timeout"],
+            dclose |-> <<>>, cx |-> <<>>, fault |-> << [p |-> "K1", c |-> 1, k |-> 1, some |-> TRUE, kind |-> "timeout"],
                                      [p |-> "D", c |-> 2, k |-> 2, some |-> FALSE, kind |-> "error"] >>, closer |-> FALSE]
 McFaultBig == [McFault EXCEPT !.closer = TRUE]
 \* ... inside the caller's slice of a data frame, inside the second write of a two-write control frame
 McFault2 == [msgs |-> << <<T, F>> >>, hold |-> << <<0, 0>> >>, ctl |-> << <<"ping">>, <<"pong">> >>, rd |-> << >>,
-             cx |-> << [p |-> "K1", c |-> 1, n |-> 2] >>,
+             dclose |-> <<>>, cx |-> << [p |-> "K1", c |-> 1, n |-> 2] >>,
              fault |-> << [p |-> "K1", c |-> 1, k |-> 2, some |-> TRUE, kind |-> "error"],
                           [p |-> "D", c |-> 1, k |-> 2, some |-> TRUE, kind |-> "timeout"] >>, closer |-> FALSE]
+
+\* the data writer sends the Close itself, through the message API, and goes on calling
+McDClose == [msgs |-> << <<T, F>>, <<F>>, <<F>>, <<F, F>> >>, hold |-> << <<0, 0>>, <<0>>, <<0>>, <<0, 0>> >>, dclose |-> <<2>>,
+             ctl |-> << <<"ping", "pong">> >>, rd |-> << >>, cx |-> <<>>, fault |-> <<>>, closer |-> TRUE]
 =============================================================================
